@@ -45,6 +45,7 @@ type fields struct {
 	dg     int
 	ord    string // the order returned by Degeneracy (implementation detail: strict part only)
 	bk     string // the maximal cliques as sent, in order (strict part only)
+	lg     string // the edge array of LineGraphDense (strict part only; "-" when not computed)
 	gr, pr []string
 }
 
@@ -210,7 +211,13 @@ func observe(c gx.Case, v gx.Variant, viol *[]hx.OracleViolation) fields {
 	}
 
 	// chromatic index with witness
+	f.lg = "-"
 	if f.m <= maxEdgesChromaticIndex {
+		var sb strings.Builder
+		for _, b := range graph.LineGraphDense(g).Edges {
+			sb.WriteByte('0' + b)
+		}
+		f.lg = sb.String()
 		ci, ce := graph.ChromaticIndex(g)
 		f.ci = ci
 		if len(ce) != n*(n-1)/2 {
@@ -412,7 +419,7 @@ func exec(line string) hx.Result {
 		}
 		b = append(b, fmt.Sprintf("class=%d", 1+ref.ci-maxDeg))
 	}
-	return hx.Result{Obs: first.line(c.Level) + " ## order=" + first.ord + " bk=" + first.bk, Nontrivial: nontrivial, Buckets: b, Viol: viol}
+	return hx.Result{Obs: first.line(c.Level) + " ## order=" + first.ord + " bk=" + first.bk + " lg=" + first.lg, Nontrivial: nontrivial, Buckets: b, Viol: viol}
 }
 
 func main() {
